@@ -2,6 +2,7 @@
 (macros/{mix,lighten_saturate,hue,arithmetics,clamp,color_theory}.rs, lib.rs blanket/[T] impls, alpha/alpha.rs, blend/pre_alpha.rs).
 Decided over the plumbing component type W (c10_support.rs); a few f32 instances in the thorough tier."""
 from common import Out
+import textwrap
 
 SRGB = "palette::encoding::Srgb"
 D65 = "palette::white_point::D65"
@@ -69,7 +70,7 @@ def gen():
             "use palette::num::{One, Real, Zero};\nuse crate::c10_support::*;\n")
     for T in TYPES:
         o.parts.append(helpers(T, "W"))
-    F32 = [T for T in TYPES if T["key"] in ("rgb", "hsv", "lab", "hwb", "hsl")]
+    F32 = [T for T in TYPES if T["key"] in ("rgb", "luma", "hsv", "lab", "hwb", "hsl")]
     for T in F32:
         o.parts.append(helpers(T, "f32"))
 
@@ -102,7 +103,9 @@ def gen():
         def H(name, text, body, fns, unwind=None):
             if only and name not in only:
                 return
-            o.harness(f"{key}_{name}", f"{ty}: {text}. {doc}", head + body, fns, bound, thorough=thorough, unwind=unwind)
+            code = textwrap.dedent(head).strip() + "\n" + textwrap.dedent(body).strip()
+            code = "\n".join(l.strip() for l in code.splitlines() if l.strip())
+            o.harness(f"{key}_{name}", f"{ty}: {text}. {doc}", code, fns, bound, thorough=thorough, unwind=unwind)
 
         # ---- Mix
         pre = ""
@@ -117,7 +120,7 @@ def gen():
                 assert!({eq}(&pm.color, &v) && {seq('pm.alpha', 'av.alpha')});
             """
         H("mix", "x.mix(y, f), mix_assign, the colour of Alpha::mix / mix_assign" + (" and of PreAlpha::mix / mix_assign" if T["pre"] else "")
-          + " are the same colour; the alpha forms agree on the mixed alpha (Alpha and PreAlpha mix alpha with the clamped factor)",
+          + " are the same colour; all alpha forms give alpha = xa + (ya - xa) * clamp(f, 0, 1) (alpha is mixed like a colour component)",
           f"""
             let f: {F} = {anys};
             {fin('f')}
@@ -127,7 +130,8 @@ def gen():
             m.mix_assign(y, f);
             assert!({eq}(&m, &v));
             let av = ax.mix(ay, f);
-            assert!({eq}(&av.color, &v));
+            let fc = palette::num::Clamp::clamp(f, <{F} as Zero>::zero(), <{F} as One>::one());
+            assert!({eq}(&av.color, &v) && {seq('av.alpha', '(xa + (ya - xa) * fc)')});
             let mut am = ax;
             am.mix_assign(ay, f);
             assert!({eq}(&am.color, &v) && {seq('am.alpha', 'av.alpha')});
@@ -348,8 +352,67 @@ def gen():
 
     for T in TYPES:
         emit(T, "W")
-    pick = {"rgb": {"lighten", "lighten_fixed", "add", "clamp"}, "hsv": {"hue_ops", "saturate", "color_schemes"}, "lab": {"mix", "color_schemes"},
-            "hwb": {"lighten", "lighten_fixed"}, "hsl": {"mix"}}
-    for T in F32:
-        emit(T, "f32", thorough=True, only=pick[T["key"]])
+    # ---- f32 instances (thorough tier). Cheap groups (adds, comparisons) whole; anything with a multiply as one pair of forms per harness.
+    BY = {T["key"]: T for T in TYPES}
+    pick = {"rgb": {"add", "sub", "clamp"}, "hsv": {"hue_ops", "color_schemes", "clamp"}, "lab": {"color_schemes"}}
+    for k, names in pick.items():
+        emit(BY[k], "f32", thorough=True, only=names)
+
+    FDOC = "Component type f32, bit-for-bit comparison (to_bits) of every component; one pair of forms per harness (two copies of a float multiplier circuit)"
+    FB = "all finite f32 colours, factors and amounts"
+
+    def K(key, name, text, body, fns, unwind=None):
+        T = BY[key]
+        ty = T["ty"].format(F="f32")
+        kk = f"{key}_f32"
+        o.harness(f"c10_{key}_f32_{name}", f"{ty}: {text}. {FDOC}", f"""
+            let x = any_{kk}();
+            let y = any_{kk}();
+            let f: f32 = kani::any();
+            kani::assume(f.is_finite());
+            kani::cover!(true);
+            """ + "\n".join(l.strip() for l in body.replace("EQ", f"eq_{kk}").splitlines()), [f.replace("TY", ty) for f in fns], FB, thorough=True, unwind=unwind)
+
+    for key in ("luma", "rgb", "hsv", "hwb"):
+        K(key, "lighten_vs_assign", "lighten(f) and lighten_assign(f) give the same colour",
+          "let v = x.lighten(f); let mut m = x; m.lighten_assign(f); assert!(EQ(&m, &v));", ["<TY as Lighten>::lighten", "<TY as LightenAssign>::lighten_assign"])
+        K(key, "lighten_fixed_vs_assign", "lighten_fixed(f) and lighten_fixed_assign(f) give the same colour",
+          "let v = x.lighten_fixed(f); let mut m = x; m.lighten_fixed_assign(f); assert!(EQ(&m, &v));",
+          ["<TY as Lighten>::lighten_fixed", "<TY as LightenAssign>::lighten_fixed_assign"])
+    K("luma", "lighten_vs_slice", "lighten(f) of two colours and <[T]>::lighten_assign(f) on the slice of both give the same colours",
+      "let v = x.lighten(f); let w = y.lighten(f); let mut s = [x, y]; s[..].lighten_assign(f); assert!(EQ(&s[0], &v) && EQ(&s[1], &w));",
+      ["<TY as Lighten>::lighten", "<[T] as LightenAssign>::lighten_assign"], unwind=3)
+    K("luma", "lighten_vs_alpha", "lighten(f) and the colour of Alpha::lighten(f) / lighten_assign(f) are the same, alpha untouched",
+      """let a: f32 = kani::any(); kani::assume(a.is_finite());
+         let v = x.lighten(f); let ax = Alpha { color: x, alpha: a };
+         let av = ax.lighten(f); assert!(EQ(&av.color, &v) && av.alpha.to_bits() == a.to_bits());
+         let mut am = ax; am.lighten_assign(f); assert!(EQ(&am.color, &v) && am.alpha.to_bits() == a.to_bits());""",
+      ["<TY as Lighten>::lighten", "<Alpha<C, T> as Lighten/LightenAssign>"])
+    K("luma", "darken_vs_lighten", "darken(f) == lighten(-f) and darken_assign(f) gives the same colour",
+      "let n = x.lighten(-f); assert!(EQ(&x.darken(f), &n)); let mut m = x; m.darken_assign(f); assert!(EQ(&m, &n));",
+      ["<T as Darken>::darken", "<T as DarkenAssign>::darken_assign", "<TY as Lighten>::lighten"])
+    for key in ("hsv", "hsl"):
+        K(key, "saturate_vs_assign", "saturate(f) and saturate_assign(f) give the same colour",
+          "let v = x.saturate(f); let mut m = x; m.saturate_assign(f); assert!(EQ(&m, &v));", ["<TY as Saturate>::saturate", "<TY as SaturateAssign>::saturate_assign"])
+    K("hsv", "desaturate_vs_saturate", "desaturate(f) == saturate(-f)",
+      "let n = x.saturate(-f); assert!(EQ(&x.desaturate(f), &n));", ["<T as Desaturate>::desaturate", "<TY as Saturate>::saturate"])
+    for key in ("luma", "lab", "hsl"):
+        K(key, "mix_vs_assign", "x.mix(y, f) and mix_assign give the same colour",
+          "let v = x.mix(y, f); let mut m = x; m.mix_assign(y, f); assert!(EQ(&m, &v));", ["<TY as Mix>::mix", "<TY as MixAssign>::mix_assign"])
+    K("luma", "mix_vs_alpha", "x.mix(y, f) and the colour of Alpha::mix / PreAlpha::mix are the same; both mix alpha as a + (b - a) * clamp(f, 0, 1)",
+      """let a: f32 = kani::any(); let b: f32 = kani::any(); kani::assume(a.is_finite() && b.is_finite());
+         let v = x.mix(y, f);
+         let av = Alpha { color: x, alpha: a }.mix(Alpha { color: y, alpha: b }, f);
+         let fc = palette::num::Clamp::clamp(f, 0.0f32, 1.0f32);
+         assert!(EQ(&av.color, &v) && av.alpha.to_bits() == (a + (b - a) * fc).to_bits());
+         let pv = PreAlpha { color: x, alpha: a }.mix(PreAlpha { color: y, alpha: b }, f);
+         assert!(EQ(&pv.color, &v) && pv.alpha.to_bits() == av.alpha.to_bits());""",
+      ["<TY as Mix>::mix", "<Alpha<C, T> as Mix>::mix", "<PreAlpha<C> as Mix>::mix"])
+    for name, sym in (("add", "+"), ("sub", "-"), ("mul", "*"), ("div", "/")):
+        K("luma", f"prealpha_scalar_{name}", f"PreAlpha {sym} c and PreAlpha {sym}= c (scalar forms exist for f32/f64 only) give the colour of x {sym} c and alpha {sym} c",
+          f"""let a: f32 = kani::any(); kani::assume(a.is_finite());
+             let v = x {sym} f; let px = PreAlpha {{ color: x, alpha: a }};
+             let pv = px {sym} f; assert!(EQ(&pv.color, &v) && pv.alpha.to_bits() == (a {sym} f).to_bits());
+             let mut pm = px; pm {sym}= f; assert!(EQ(&pm.color, &v) && pm.alpha.to_bits() == (a {sym} f).to_bits());""",
+          ["<PreAlpha<C> as core::ops::{Add, Sub, Mul, Div}<f32>>", "<PreAlpha<C> as core::ops::{AddAssign, SubAssign, MulAssign, DivAssign}<f32>>"])
     o.write()
